@@ -9,6 +9,7 @@ import (
 	"regexp"
 	"sort"
 	"strings"
+	"sync"
 	"testing"
 
 	"github.com/wkhere/bcl"
@@ -40,7 +41,7 @@ type Outcome struct {
 	Faults     map[string]int
 	Probes     map[string]int
 	Skipped    bool
-	Evals      int // number of evaluations this run stands for (default 1)
+	Evals      int    // number of evaluations this run stands for (default 1)
 	Sched      string // gate trace key for distinct-schedule counting
 }
 
@@ -247,7 +248,44 @@ func errText(err error) string {
 	if err == nil {
 		return "<nil>"
 	}
-	return err.Error()
+	t := err.Error()
+	kept.mu.Lock()
+	if kept.on && len(kept.list) < 4096 {
+		kept.list = append(kept.list, keptErr{err, t})
+	}
+	kept.mu.Unlock()
+	return t
+}
+
+// kept holds the error values calls returned during one run, with the text they had when they
+// were returned: a result once handed to the caller must not change because of a later call.
+type keptErr struct {
+	err  error
+	text string
+}
+
+var kept struct {
+	mu   sync.Mutex
+	on   bool
+	list []keptErr
+}
+
+func keepErrors(on bool) {
+	kept.mu.Lock()
+	kept.on, kept.list = on, nil
+	kept.mu.Unlock()
+}
+
+// changedError returns a description of the first kept error whose text is no longer what it was.
+func changedError() string {
+	kept.mu.Lock()
+	defer kept.mu.Unlock()
+	for _, k := range kept.list {
+		if now := k.err.Error(); now != k.text {
+			return fmt.Sprintf("an error that read %q when it was returned reads %q after later calls", short(k.text, 200), short(now, 200))
+		}
+	}
+	return ""
 }
 
 func digest(parts ...string) string {
@@ -261,12 +299,12 @@ func digest(parts ...string) string {
 
 // ExecResult is an execution of a Prog with recording writers.
 type ExecResult struct {
-	Out, Log string
-	Blocks   string
-	Binding  string
-	Err      string
-	Panic    string
-	RawBlocks []bcl.Block
+	Out, Log   string
+	Blocks     string
+	Binding    string
+	Err        string
+	Panic      string
+	RawBlocks  []bcl.Block
 	RawBinding bcl.Binding
 }
 
